@@ -179,6 +179,9 @@ def rule_seq(env, shared):
         # `self` by value: the same LEN term without the dereference of the receiver
         Lc_val = rewrite(Lc, lambda x: ("param", 1) if x == ("deref", ("param", 1)) else None)
         tc = m.canon(t)
+        # (the size passed to an allocation is a capacity hint, not part of the returned sequence)
+        from r_ovf import ALLOC_SIZED
+        tc = rewrite(tc, lambda x: ("const", "allocation-hint") if (x[0] == "ret" and x[1] in ALLOC_SIZED) else None)
         ldc = m.canon(ld)
         # walk ancestors of the load
         verdict = {"arith": None, "clamped": False, "use": None}
@@ -306,49 +309,60 @@ def rule_len(env, shared):
                               "try_get_len of %s is not `LEN - counter` (saturating): %s" % (
                                   r["name"], fmt(bad if bad is not None else p)[:140])))
             continue
-        # ticket
+        # ticket: every way the answer can be produced (definition sites of the return value, through if / match / `?` /
+        # Option::map) is judged with the facts it is produced under
+        from guards import local_cases
         done_ok = False
-        for bi, blk in enumerate(b.blocks):
-            for s in blk["stmts"]:
-                if s["k"] == "assign" and s["rv"]["k"] == "aggregate" and s["rv"].get("variant_name") == "Some":
-                    v = ev.operand(ctx, s["rv"]["ops"][0])
-                    if v == ("int", 0):
-                        for f in block_facts(ev, ctx, bi):
-                            if f[0] == "flag" and f[2] is True and R.classify(f[1]) == ("done", adt):
-                                done_ok = True
+        done_bad = None
+        shape_ok = False
+        shape_bad = None
+        gated = True
+
+        def captured(a):
+            a = unref(a)
+            return a == ("param", 2) or (a[0] == "payload" and bool(env.R.self_field_path(unref(a[1]))))
+        for (K, fs, v) in (local_cases(ev, ctx, 0, True) or []):
+            if K not in ("Some", "None"):
+                continue
+            flag_t = any(f[0] == "flag" and f[2] is True and R.classify(f[1]) == ("done", adt) for f in fs)
+            flag_f = any(f[0] == "flag" and f[2] is False and R.classify(f[1]) == ("done", adt) for f in fs)
+            if K == "Some":
+                if v is not None and v[0] == "agg" and v[2]:
+                    x = v[2][0]
+                elif v is not None:
+                    x = ev.payload(ctx, v)
+                else:
+                    x = ("unknown", "value")
+                if flag_t:
+                    if unref(x) == ("int", 0):
+                        done_ok = True
+                    else:
+                        done_bad = x
+                else:
+                    if not flag_f:
+                        gated = False
+                    good, bad = len_shape(x, captured, adt)
+                    if good:
+                        shape_ok = True
+                    else:
+                        shape_bad = bad if bad is not None else x
+            else:
+                # None: only when the length was not captured (and, like every non-zero answer, under a false flag)
+                if not any(f[0] == "is_some" and f[2] is False and env.R.self_field_path(unref(f[1])) for f in fs):
+                    shape_bad = ("unknown", "None is answered although the captured length may be known")
         k2 = key + "|flag->Some(0)"
-        out.append(Ob("LEN", k2, "ok" if done_ok else "viol", loc,
-                      "answers Some(0) once the end flag is set" if done_ok else
+        okk2 = done_ok and done_bad is None
+        out.append(Ob("LEN", k2, "ok" if okk2 else "viol", loc,
+                      "answers Some(0) once the end flag is set" if okk2 else
                       "try_get_len of the wrapper does not answer Some(0) when the end flag is set: after skip_to_end, "
                       "exhaustion or a panic the remaining length is reported from the position counter alone"))
-        # the non-completed branch: initial_len.map(|l| l - counter | 0), reachable only with flag false
-        shape_ok = False
-        gated = False
-        for x in subterms(t):
-            if x[0] == "call" and x[1] == "Option::map" and len(x[2]) == 2:
-                clo = unref(x[2][1])
-                if clo[0] == "agg" and clo[1].startswith("closure:"):
-                    cb = F.bodies.get(clo[1][len("closure:"):])
-                    if cb is None:
-                        continue
-                    cctx = env.ctx(cb, adt, env.world_of(adt))
-                    ct = ev.local(cctx, 0)
-                    # the closure parameter: the payload of the captured-length field
-                    good, bad = len_shape(ct, lambda a: unref(a) == ("param", 2) or (
-                        unref(a)[0] == "payload" and env.R.self_field_path(unref(a)[1])), adt)
-                    src = unref(x[2][0])
-                    fl = env.R.self_field_path(src)
-                    if good and fl:
-                        shape_ok = True
-                    # creation site facts: flag false
-                    for f in env.creation_facts(cb, cctx):
-                        if f[0] == "flag" and f[2] is False and R.classify(f[1]) == ("done", adt):
-                            gated = True
         k3 = key + "|initial_len-counter"
-        out.append(Ob("LEN", k3, "ok" if (shape_ok and gated) else "viol", loc,
-                      "otherwise maps the captured exact length l to l - counter (saturating)" if (shape_ok and gated) else
+        okk3 = shape_ok and gated and shape_bad is None
+        out.append(Ob("LEN", k3, "ok" if okk3 else "viol", loc,
+                      "otherwise maps the captured exact length l to l - counter (saturating)" if okk3 else
                       "the length answer of the wrapper is not `captured length - counter` under a false end flag "
-                      "(shape=%s, under flag false=%s)" % (shape_ok, gated), True))
+                      "(shape=%s, under flag false=%s%s)" % (shape_ok, gated, ", offending: " + fmt(shape_bad)[:80]
+                                                             if shape_bad is not None else ""), True))
         # constructor: captured only for exact size hints
         ctor_ok = None
         for cb in F.non_test_bodies():
@@ -421,6 +435,92 @@ def rule_len(env, shared):
     return out
 
 
+def fill_loops(env, T, b, ctx):
+    """Loops of body b that fill a fresh vector from the wrapped iterator, one push per element, for at most n rounds:
+        let mut buf = Vec::new();  for _ in 0..n { match iter.next() { Some(x) => buf.push(x), None => break } }
+    (any spelling with the same control flow). For such a loop `buf.len() < n` holds after it exactly when the wrapped
+    iterator returned None. Returns [(buf term, n term, loop blocks)]."""
+    ev = env.ev
+    out = []
+    for (h, L) in b.natural_loops():
+        inner = [(bi, t) for bi, t, c in b.calls() if bi in L and not c.indirect and c.trait == "std::iter::Iterator"
+                 and c.name == "next" and c.self_param is not None]
+        pushes = [(bi, t) for bi, t, c in b.calls() if bi in L and not c.indirect and c.key == "std::vec::Vec::push"]
+        rng = []
+        for bi, t, c in b.calls():
+            if bi in L and not c.indirect and c.trait == "std::iter::Iterator" and c.name == "next" and c.self_param is None:
+                a0 = unref(ev.operand(ctx, t["args"][0]))
+                if a0[0] == "call" and a0[1] == "into_iter" and a0[2]:
+                    a0 = unref(a0[2][0])
+                if a0[0] == "agg" and a0[1].endswith("Range::Range") and len(a0[2]) == 2 and unref(a0[2][0]) == ("int", 0):
+                    rng.append((bi, t, unref(a0[2][1])))
+        if len(inner) != 1 or len(pushes) != 1 or len(rng) != 1:
+            continue
+        (ib, it), (pb, pt), (rb, rt_, n_term) = inner[0], pushes[0], rng[0]
+        buf = unref(ev.operand(ctx, pt["args"][0]))
+        if not (buf[0] == "ret" and buf[1] in ("std::vec::Vec::new", "std::vec::Vec::with_capacity")):
+            continue
+        ires = ev.operand(ctx, {"k": "copy", "place": it["dest"]})
+        if unref(ev.operand(ctx, pt["args"][1])) != unref(ev.payload(ctx, ires)):
+            continue
+        # the push lies on every path from the Some edge of the wrapped next back to the loop header
+        some_blocks = [x for x in L if any(f[0] == "is_some" and f[2] is True and f[1] == unref(ires)
+                                           for f in block_facts(ev, ctx, x))]
+        if pb not in some_blocks:
+            continue
+        first_some = [x for x in some_blocks if not any(p in some_blocks for p in b.preds()[x])]
+        if any(x != pb and b.paths_avoiding(x, {h}, {pb}) for x in first_some):
+            continue
+        # nothing else in the loop touches the buffer
+        if any(bi != pb and any(unref(ev.operand(ctx, a)) == buf for a in t["args"]) for bi, t, c in b.calls() if bi in L):
+            continue
+        # exits: the round counter is used up, or the wrapped iterator returned None
+        rres = unref(ev.operand(ctx, {"k": "copy", "place": rt_["dest"]}))
+        okx = True
+        for x in L:
+            for y in b.succ(x):
+                if y in L or _only_panics_s(b, y):
+                    continue
+                fs = block_facts(ev, ctx, y)
+                if not any(f[0] == "is_some" and f[2] is False and f[1] in (unref(ires), rres) for f in fs):
+                    okx = False
+        if okx:
+            out.append((buf, n_term, L))
+    return out
+
+
+def _only_panics_s(b, s):
+    seen = set()
+    st = [s]
+    while st:
+        x = st.pop()
+        if x in seen:
+            continue
+        seen.add(x)
+        if b.term(x)["k"] == "return":
+            return False
+        st.extend(b.succ(x))
+    return True
+
+
+def _fill_evidence(fills, f, neg=False):
+    """is fact f `buf.len() < n` (neg: `n <= buf.len()`) for one of the fill loops?"""
+    for (buf, n, _L) in fills:
+        ln = ("call", "len", (("ref", buf),))
+        if not neg and f[0] == "lt" and len(f) == 3 and unref_len(f[1]) == ln and unref(f[2]) == n:
+            return True
+        if neg and f[0] == "le" and len(f) == 3 and unref(f[1]) == n and unref_len(f[2]) == ln:
+            return True
+    return False
+
+
+def unref_len(t):
+    t = unref(t)
+    if t[0] == "call" and t[1] == "len" and t[2]:
+        return ("call", "len", (("ref", unref(t[2][0])),))
+    return t
+
+
 def rule_done(env, shared):
     """DONE-EVID: the end flag is set only on evidence (early_exit; the wrapped iterator returned None / a short chunk;
     a panic while the ticket is held).  DONE-SET: on every path where the wrapped iterator returned None the flag is set
@@ -465,6 +565,10 @@ def rule_done(env, shared):
                 why = "guard dropped while panicking"
             elif any(f[0] == "is_some" and f[2] is False and "Iterator::next" in fmt(f[1]) for f in fs):
                 why = "the wrapped iterator returned None"
+            elif any(_fill_evidence(fill_loops(env, T, e.info["chain"][-1][0] if (trivial and e.info["chain"]) else sb,
+                                               e.info["chain"][-1][2] if (trivial and e.info["chain"]) else e.ctx), f)
+                     for f in fs):
+                why = "the fill loop pushed fewer elements than it had rounds: it was left on None"
             elif any(f[0] in ("lt", "eq", "ne") and len(f) == 3 and "Iterator::collect" in fmt(f[1]) + fmt(f[2])
                      and ("len(" in fmt(f[1]) or "len(" in fmt(f[2])) for f in fs):
                 # fewer elements collected than requested; n != 0 must be known (else an empty request looks like the end)
@@ -540,10 +644,17 @@ def rule_done(env, shared):
             seen.add(k)
             first = [x for x in none_blocks if not any(y != x and y in none_blocks and b.dominates(y, x) for y in none_blocks)]
             bad = False
+            # after a fill loop was left on None, `n <= buf.len()` cannot hold: blocks under that fact are not on a path
+            fills = fill_loops(env, T, b, ctx)
+            infeasible = set()
+            if fills:
+                for x in range(len(b.blocks)):
+                    if not b.blocks[x]["cleanup"] and any(_fill_evidence(fills, f, neg=True) for f in block_facts(ev, ctx, x)):
+                        infeasible.add(x)
             for s in first:
                 if s in done_blocks:
                     continue
-                if b.paths_avoiding(s, set(b.exits()), done_blocks):
+                if b.paths_avoiding(s, set(b.exits()), done_blocks | infeasible):
                     bad = True
             if bad:
                 out.append(Ob("DONE-SET", k, "viol", e.loc(),
